@@ -248,7 +248,7 @@ func TestC06(t *testing.T) {
 	extN := 0
 	cfg := engine.DefaultConfig()
 	rapid.Check(t, func(rt *rapid.T) {
-		p := proggen.Gen(rt, proggen.GenOpts{Focus: "all", MinPkgs: 2, MaxPkgs: 4, TestFiles: true, Aliases: true, Rich: true})
+		p := proggen.Gen(rt, proggen.GenOpts{Focus: "all", MinPkgs: 2, MaxPkgs: 4, TestFiles: true, XTest: true, Aliases: true, Rich: true})
 		fat := fatten(rt, p)
 		p.Render()
 		res := loadOrBug(rt, id, p, cfg)
